@@ -22,7 +22,7 @@ RULE = ("case = step-level (noise type, h incl. large, random (y0,z0), SDE seed)
 ASSUMPTIONS = ["trajectory level: n*dt kept where the reverse recursion is numerically stable (n <= 200, moderate "
                "Lipschitz constants); thresholds 1e-9*scale (exact / snapped grids), 1e-6*scale unsnapped decimal grids",
                "step level: the carried (f, g) are the vector fields at z (consistent extra state)"]
-REQUIRED_COUNTERS = ["step_cases", "traj_class_A", "traj_class_B", "large_h_steps", "traj_far_time_axis", "traj_list_ts_under_default_f32", "traj_offgrid_outputs",
+REQUIRED_COUNTERS = ["traj_forward_driven_by_reversed_motion", "step_cases", "traj_class_A", "traj_class_B", "large_h_steps", "traj_far_time_axis", "traj_list_ts_under_default_f32", "traj_offgrid_outputs",
                      "traj_reverse_leg_via_sdeint_adjoint"]
 THRESHOLDS = {"step": 1e-12, "traj_exact": 1e-9, "traj_unsnapped": 1e-6}
 
@@ -119,12 +119,21 @@ def run_traj(case):
     lists = rng.random() < 0.3
     rev_adjoint = rng.random() < 0.3
     cnt["traj_reverse_leg_via_sdeint_adjoint"] = int(rev_adjoint)
+    # the forward solve may itself be driven by a reversed Brownian motion (a valid Brownian object over [t0, t1] built
+    # from a path over [-t1, -t0]); "the reversed Brownian motion" of the reverse leg is then a reversal of a reversal,
+    # which must be the original path again
+    fwd_reversed = rng.random() < 0.3
+    cnt["traj_forward_driven_by_reversed_motion"] = int(fwd_reversed)
     cnt["traj_list_ts_under_default_f32"] = int(lists)
-    ctx = f"noise={nt} dt={dt} n={n} t0={t0} B={B} d={d} m={sde.m} list_ts_under_default_f32={lists} offgrid_outputs={offgrid}"
+    ctx = f"noise={nt} dt={dt} n={n} t0={t0} B={B} d={d} m={sde.m} list_ts_under_default_f32={lists} offgrid_outputs={offgrid} forward_bm_reversed={fwd_reversed}"
 
     def roundtrip(wrap):
-        bm = wrap(torchsde.BrownianInterval(float(ts[0]), float(ts[-1]), size=(B, sde.m), entropy=entropy,
-                                            dtype=torch.float64))
+        if fwd_reversed:
+            bm = wrap(torchsde.ReverseBrownian(torchsde.BrownianInterval(
+                -float(ts[-1]), -float(ts[0]), size=(B, sde.m), entropy=entropy, dtype=torch.float64)))
+        else:
+            bm = wrap(torchsde.BrownianInterval(float(ts[0]), float(ts[-1]), size=(B, sde.m), entropy=entropy,
+                                                dtype=torch.float64))
         pr = probes.SolverProbe(keep_states=False)
         tf, tb = (ts.tolist(), (-ts.flip(0)).tolist()) if lists else (ts, -ts.flip(0))
         with torch.no_grad(), pr.installed(), env.default_dtype(torch.float32 if lists else torch.float64):
